@@ -153,6 +153,8 @@ def run_args(case, tags):
         combos.append(("gen:bad-type", g(os.path.join(d, "gen_new0.py"), "nonsense"), "reject"))
         for t in ("argparse", "class", "function"):
             combos.append(("gen:%s" % t, g(os.path.join(d, "gen_new_%s.py" % t), t), "accept"))
+            combos.append(("gen:%s:prepend-docstring" % t, g(os.path.join(d, "gen_doc_%s.py" % t), t) + ["--prepend", '"""Generated module."""\\nPRE = 1\\n'], "accept"))
+            combos.append(("gen:%s:imports-from-file" % t, g(os.path.join(d, "gen_imp_%s.py" % t), t) + ["--imports-from-file", "c20gen_in"], "accept"))
         # --- the same files under other spellings (HOME and the working directory are the project directory)
         os.symlink(existing, os.path.join(d, "gen_link.py"))
         tilde = lambda pth: "~/" + os.path.basename(pth)
@@ -195,6 +197,8 @@ def run_args(case, tags):
                     if status != 0:
                         discs.append(Disc("accepted:%s" % status, label, msg, (), ctx))
                     for n, data in after.items():
+                        if n.endswith(".py") and n not in before and not data.strip():
+                            discs.append(Disc("accepted:empty-file", "%s:%s" % (label, n), "a new, empty file was left behind", (), ctx))
                         if n.endswith(".py"):
                             try:
                                 ast.parse(data.decode())
